@@ -37,6 +37,9 @@ pub enum Phase {
   // keyboard events, written in the given number of write() calls without waiting in between
   Keys { events: Vec<Event>, writes: usize },
   Tablet(Vec<bool>),
+  // keyboard and tablet events that arrive in the same wake-up (no waiting in between); the
+  // device that became ready first is written first
+  Joint { events: Vec<Event>, writes: usize, tablet: Vec<bool>, tablet_first: bool },
   Interrupt,
 }
 
@@ -45,6 +48,7 @@ pub enum Fault {
   SinkClosed,     // the read end of the sink is closed: the next write fails with EPIPE
   KeyboardReset,  // the keyboard's peer goes away with unread data: read fails with ECONNRESET
   TabletReset,    // the same on the tablet switch
+  SinkFull(usize), // the (non-blocking, like /dev/uinput) sink has only this many bytes of room: the next batch fails with EAGAIN
 }
 
 #[derive(Clone, Debug)]
@@ -68,10 +72,11 @@ impl RealCase {
       "with_tablet_fd": self.with_tablet_fd,
       "evdev_framing": self.evdev_framing,
       "tablet_noise": self.tablet_noise,
-      "fault": match self.fault { Fault::SinkClosed => "sink-closed", Fault::KeyboardReset => "keyboard-reset", Fault::TabletReset => "tablet-reset" },
+      "fault": match self.fault { Fault::SinkClosed => "sink-closed".to_string(), Fault::KeyboardReset => "keyboard-reset".to_string(), Fault::TabletReset => "tablet-reset".to_string(), Fault::SinkFull(n) => format!("sink-full-{}", n) },
       "phases": self.phases.iter().map(|p| match p {
         Phase::Keys { events, writes } => json!({"keys": events.iter().map(ev_text).collect::<Vec<_>>(), "writes": writes}),
         Phase::Tablet(t) => json!({"tablet": t}),
+        Phase::Joint { events, writes, tablet, tablet_first } => json!({"joint_keys": events.iter().map(ev_text).collect::<Vec<_>>(), "writes": writes, "joint_tablet": tablet, "tablet_first": tablet_first}),
         Phase::Interrupt => json!("interrupt"),
       }).collect::<Vec<_>>(),
     })
@@ -82,6 +87,10 @@ impl RealCase {
     for p in v.get("phases").and_then(|p| p.as_array()).ok_or("no phases")? {
       if p.as_str() == Some("interrupt") {
         phases.push(Phase::Interrupt);
+      } else if let Some(k) = p.get("joint_keys").and_then(|k| k.as_array()) {
+        let events: Vec<Event> = k.iter().map(|x| x.as_str().and_then(ev_from_text).ok_or_else(|| format!("bad event {}", x))).collect::<Result<_, _>>()?;
+        let tablet: Vec<bool> = p.get("joint_tablet").and_then(|t| t.as_array()).map(|t| t.iter().map(|b| b.as_bool().unwrap_or(false)).collect()).unwrap_or_default();
+        phases.push(Phase::Joint { events, writes: p.get("writes").and_then(|w| w.as_u64()).unwrap_or(1) as usize, tablet, tablet_first: p.get("tablet_first").and_then(|b| b.as_bool()).unwrap_or(false) });
       } else if let Some(t) = p.get("tablet").and_then(|t| t.as_array()) {
         phases.push(Phase::Tablet(t.iter().map(|b| b.as_bool().unwrap_or(false)).collect()));
       } else if let Some(k) = p.get("keys").and_then(|k| k.as_array()) {
@@ -94,6 +103,7 @@ impl RealCase {
     let fault = match v.get("fault").and_then(|f| f.as_str()).unwrap_or("keyboard-reset") {
       "sink-closed" => Fault::SinkClosed,
       "tablet-reset" => Fault::TabletReset,
+      f if f.starts_with("sink-full-") => Fault::SinkFull(f["sink-full-".len()..].parse().unwrap_or(0)),
       _ => Fault::KeyboardReset,
     };
     Ok(RealCase {
@@ -133,7 +143,7 @@ pub fn gen_real_case(src: &mut Src, which: u32) -> Option<RealCase> {
   }
   let mut phases: Vec<Phase> = Vec::new();
   let mut idx = 0usize;
-  let with_tablet_events = which != 10;
+  let with_tablet_events = true;
   for a in &c.script.actions {
     match a {
       Action::Arrive { kb: n, tablet, tablet_first, mid, .. } => {
@@ -142,7 +152,9 @@ pub fn gen_real_case(src: &mut Src, which: u32) -> Option<RealCase> {
         let keys = if take > 0 { Some(Phase::Keys { events: kb[idx..idx + take].to_vec(), writes: 1 + mid.len().min(take.saturating_sub(1)) }) } else { None };
         idx += take;
         let tab = if with_tablet_events && !tablet.is_empty() { Some(Phase::Tablet(tablet.clone())) } else { None };
-        if *tablet_first {
+        if let (Some(Phase::Keys { events, writes }), Some(Phase::Tablet(t)), true) = (&keys, &tab, src.chance(40)) {
+          phases.push(Phase::Joint { events: events.clone(), writes: *writes, tablet: t.clone(), tablet_first: *tablet_first });
+        } else if *tablet_first {
           phases.extend(tab);
           phases.extend(keys);
         } else {
@@ -166,13 +178,14 @@ pub fn gen_real_case(src: &mut Src, which: u32) -> Option<RealCase> {
   while matches!(phases.last(), Some(Phase::Interrupt)) {
     phases.pop();
   }
-  let has_tablet = phases.iter().any(|p| matches!(p, Phase::Tablet(_)));
+  let has_tablet = phases.iter().any(|p| matches!(p, Phase::Tablet(_) | Phase::Joint { .. }));
   let with_tablet_fd = has_tablet || src.chance(50);
   let fault = match which {
-    20 => match src.weighted(&[45, 35, 20]) {
+    20 => match src.weighted(&[30, 25, 15, 30]) {
       0 => Fault::SinkClosed,
       1 => Fault::KeyboardReset,
-      _ => if with_tablet_fd { Fault::TabletReset } else { Fault::KeyboardReset },
+      2 => if with_tablet_fd { Fault::TabletReset } else { Fault::KeyboardReset },
+      _ => Fault::SinkFull(src.pick(&[0usize, 24, 40, 47])),
     },
     _ => Fault::KeyboardReset,
   };
@@ -243,6 +256,7 @@ fn sink_pipe() -> Option<(RawFd, RawFd)> {
     libc::fcntl(p[1], libc::F_SETPIPE_SZ, 1 << 20);
   }
   set_nonblock(p[0]);
+  set_nonblock(p[1]); // the tool opens /dev/uinput with O_NONBLOCK
   Some((p[0], p[1]))
 }
 
@@ -278,9 +292,16 @@ fn syscall_of(tid: i32) -> Result<Option<i64>, ()> {
 }
 
 fn in_epoll_wait(tid: i32) -> Result<bool, ()> {
-  // x86-64: epoll_wait 232, epoll_pwait 281, epoll_pwait2 441
-  Ok(matches!(syscall_of(tid)?, Some(232) | Some(281) | Some(441)))
+  // x86-64: epoll_wait 232, epoll_pwait 281, epoll_pwait2 441; a loop that waits with poll 7,
+  // ppoll 271, select 23 or pselect6 270 instead is waiting just as well
+  Ok(matches!(syscall_of(tid)?, Some(232) | Some(281) | Some(441) | Some(7) | Some(271) | Some(23) | Some(270)))
 }
+
+// Cases whose waits ran out (never a verdict). After a few of them the stage stops running
+// cases: whatever the reason (a loop that waits in some other way, a frozen machine), more of
+// them would only burn the time budget.
+static INCONCLUSIVE: std::sync::atomic::AtomicU32 = std::sync::atomic::AtomicU32::new(0);
+const MAX_INCONCLUSIVE: u32 = 12;
 
 pub fn proc_syscall_readable() -> bool {
   let tid = unsafe { libc::syscall(libc::SYS_gettid) } as i32;
@@ -395,8 +416,15 @@ fn recs_text(r: &[(u16, u16, i32)]) -> String {
 }
 
 
+// what one device's part of a phase owes the sink
+enum Seg {
+  Exact { recs: Vec<(u16, u16, i32)>, judge: bool, tablet_on: bool },
+  Release { held_before: Vec<KeyCode>, judge: bool },
+}
+
 #[derive(Default, Debug, Clone)]
 pub struct RealFacts {
+  pub joint_phases: u32,
   pub key_events: u32,
   pub multi_event_writes: u32,
   pub tablet_events: u32,
@@ -412,7 +440,7 @@ pub struct RealFacts {
 // tablet event, unread-while-waiting, early return; 12: everything from the first tablet event
 // on; 20: the ending).
 pub fn run_real_case(which: u32, c: &RealCase, facts: &mut RealFacts) -> Result<(), Violation> {
-  if !proc_syscall_readable() {
+  if !proc_syscall_readable() || INCONCLUSIVE.load(Ordering::SeqCst) >= MAX_INCONCLUSIVE {
     facts.skipped = true;
     return Ok(());
   }
@@ -463,6 +491,7 @@ pub fn run_real_case(which: u32, c: &RealCase, facts: &mut RealFacts) -> Result<
   let mut sink: Vec<u8> = Vec::new();
   let mut judged = 0usize; // bytes of the sink already judged
   let mut fed_text: Vec<String> = Vec::new();
+  let mut ambiguous = false; // set by the first wake-up that carries keyboard and tablet events
 
   let fold = |held: &mut Vec<KeyCode>, evs: &[Event]| {
     for e in evs {
@@ -487,91 +516,144 @@ pub fn run_real_case(which: u32, c: &RealCase, facts: &mut RealFacts) -> Result<
       }
       Quiet::StuckUnread(_) | Quiet::Inconclusive => break 'phases,
     }
-    let mut expected: Vec<(u16, u16, i32)> = Vec::new();
-    let mut release_only_until_empty = false;
+    let mut segs: Vec<Seg> = Vec::new();
+    // one device's part of a phase: simulate, remember what is owed, write
+    // Keyboard and tablet events of one wake-up: the readiness list says which device became
+    // ready first, but nothing documents that a loop must honour that (a property-preserving
+    // change that always drains the tablet switch first was written by an independent agent, a
+    // breaking one that always drains the keyboard first by another: the texts of C10 and C12
+    // do not decide between them). So the content of such a phase is not judged, and since the
+    // mapper's state afterwards depends on the order taken, neither is the content of the
+    // phases after it; waiting with unread events, an early return and the ending still are.
+    if let Phase::Joint { .. } = ph {
+      if tab.is_some() {
+        ambiguous = true;
+      }
+    }
+    let mut feed_keys = |events: &Vec<Event>, writes: usize, noise: bool, segs: &mut Vec<Seg>, twin: &mut Mapper, held: &mut Vec<KeyCode>, phys: &mut Vec<KeyCode>, tablet_on: bool, seen_tablet: bool, facts: &mut RealFacts| -> bool {
+      facts.key_events += events.len() as u32;
+      let mut expected: Vec<(u16, u16, i32)> = Vec::new();
+      let mut bytes_per_event: Vec<Vec<u8>> = Vec::new();
+      for (ei, e) in events.iter().enumerate() {
+        let mut b: Vec<u8> = Vec::new();
+        if c.evdev_framing && ei % 3 == 1 {
+          // a packet without a key in it, in the same batch: an LED echo or pointer motion
+          if ei % 2 == 1 { b.extend_from_slice(&rec(0x11, 1, 1)); } else { b.extend_from_slice(&rec(2, 0, 5)); }
+          b.extend_from_slice(&rec(0, 0, 0));
+        }
+        if c.evdev_framing {
+          b.extend_from_slice(&rec(4, 4, 0x70000 + (match e { Event::Pressed(k) | Event::Released(k) => *k as i32 })));
+        }
+        b.extend_from_slice(&key_rec(e));
+        if c.evdev_framing {
+          b.extend_from_slice(&rec(0, 0, 0));
+          if let Some(k) = phys.last() {
+            // the kernel's auto-repeat of the key pressed last
+            b.extend_from_slice(&rec(1, *k as i32 as u16, 2));
+            b.extend_from_slice(&rec(0, 0, 0));
+          }
+        }
+        match e {
+          Event::Pressed(k) => if !phys.contains(k) { phys.push(*k) },
+          Event::Released(k) => phys.retain(|x| x != k),
+        }
+        bytes_per_event.push(b);
+        if !tablet_on {
+          let out = twin.step(e.clone()).events;
+          if !out.is_empty() {
+            expected.extend(expect_records(&out));
+            fold(held, &out);
+          }
+        }
+      }
+      segs.push(Seg::Exact { recs: expected, judge: !ambiguous && match which { 10 => !seen_tablet, 12 => seen_tablet, _ => false }, tablet_on });
+      if noise && c.tablet_noise {
+        if let Some((_, tab_feed)) = tab {
+          // lid closed / opened, headphones: not the tablet-mode switch
+          let mut b: Vec<u8> = Vec::new();
+          for (code, v) in [(0u16, 1), (2, 1), (0, 0), (5, 1)] {
+            b.extend_from_slice(&rec(5, code, if tablet_on { 1 - v } else { v }));
+            b.extend_from_slice(&rec(0, 0, 0));
+          }
+          write_all(tab_feed, &b);
+        }
+      }
+      let w = writes.max(1).min(events.len().max(1));
+      if w > 1 || events.len() > 1 {
+        facts.multi_event_writes += 1;
+      }
+      let per = (events.len() + w - 1) / w.max(1);
+      for chunk in bytes_per_event.chunks(per.max(1)) {
+        let flat: Vec<u8> = chunk.iter().flatten().cloned().collect();
+        if !write_all(kb_feed, &flat) {
+          return false;
+        }
+      }
+      true
+    };
+    let feed_tablet = |evs: &Vec<bool>, tab_feed: RawFd, segs: &mut Vec<Seg>, twin: &mut Mapper, held: &mut Vec<KeyCode>, tablet_on: &mut bool, facts: &mut RealFacts| -> bool {
+      facts.tablet_events += evs.len() as u32;
+      let mut b: Vec<u8> = Vec::new();
+      for on in evs {
+        if c.tablet_noise {
+          // the opposite value on the lid switch, in the same report
+          b.extend_from_slice(&rec(5, 0, if *on { 0 } else { 1 }));
+          b.extend_from_slice(&rec(5, 2, if *on { 0 } else { 1 }));
+        }
+        b.extend_from_slice(&rec(5, 1, if *on { 1 } else { 0 }));
+        if c.evdev_framing {
+          b.extend_from_slice(&rec(0, 0, 0));
+        }
+        if *on && !held.is_empty() {
+          facts.on_with_keys_held += 1;
+        }
+        *tablet_on = *on;
+      }
+      segs.push(Seg::Release { held_before: held.clone(), judge: which == 12 && !ambiguous });
+      held.clear();
+      *twin = Mapper::for_layout(&c.layout);
+      write_all(tab_feed, &b)
+    };
     match ph {
       Phase::Keys { events, writes } => {
-        facts.key_events += events.len() as u32;
-        let mut bytes_per_event: Vec<Vec<u8>> = Vec::new();
-        for e in events {
-          let mut b: Vec<u8> = Vec::new();
-          if c.evdev_framing {
-            b.extend_from_slice(&rec(4, 4, 0x70000 + (match e { Event::Pressed(k) | Event::Released(k) => *k as i32 })));
-          }
-          b.extend_from_slice(&key_rec(e));
-          if c.evdev_framing {
-            b.extend_from_slice(&rec(0, 0, 0));
-            if let Some(k) = phys.last() {
-              // the kernel's auto-repeat of the key pressed last
-              b.extend_from_slice(&rec(1, *k as i32 as u16, 2));
-              b.extend_from_slice(&rec(0, 0, 0));
-            }
-          }
-          match e {
-            Event::Pressed(k) => if !phys.contains(k) { phys.push(*k) },
-            Event::Released(k) => phys.retain(|x| x != k),
-          }
-          bytes_per_event.push(b);
-          if !tablet_on {
-            let out = twin.step(e.clone()).events;
-            if !out.is_empty() {
-              expected.extend(expect_records(&out));
-              fold(&mut held, &out);
-            }
-          }
-        }
-        if c.tablet_noise {
-          if let Some((_, tab_feed)) = tab {
-            // lid closed / opened, headphones: not the tablet-mode switch
-            let mut b: Vec<u8> = Vec::new();
-            for (code, v) in [(0u16, 1), (2, 1), (0, 0), (5, 1)] {
-              b.extend_from_slice(&rec(5, code, if tablet_on { 1 - v } else { v }));
-              b.extend_from_slice(&rec(0, 0, 0));
-            }
-            write_all(tab_feed, &b);
-          }
-        }
-        let w = (*writes).max(1).min(events.len().max(1));
-        if w > 1 || events.len() > 1 {
-          facts.multi_event_writes += 1;
-        }
-        let per = (events.len() + w - 1) / w.max(1);
-        for chunk in bytes_per_event.chunks(per.max(1)) {
-          let flat: Vec<u8> = chunk.iter().flatten().cloned().collect();
-          if !write_all(kb_feed, &flat) {
-            verdict = Err(Violation::new("io", "write to the keyboard socket failed".into()));
-            break 'phases;
-          }
+        if !feed_keys(events, *writes, true, &mut segs, &mut twin, &mut held, &mut phys, tablet_on, seen_tablet, facts) {
+          verdict = Err(Violation::new("io", "write to the keyboard socket failed".into()));
+          break 'phases;
         }
         fed_text.push(events.iter().map(ev_text).collect::<Vec<_>>().join(" "));
       }
       Phase::Tablet(evs) => {
         let (_, tab_feed) = match tab { Some(t) => t, None => continue };
-        facts.tablet_events += evs.len() as u32;
-        let mut b: Vec<u8> = Vec::new();
-        for on in evs {
-          if c.tablet_noise {
-            // the opposite value on the lid switch, in the same report
-            b.extend_from_slice(&rec(5, 0, if *on { 0 } else { 1 }));
-            b.extend_from_slice(&rec(5, 2, if *on { 0 } else { 1 }));
-          }
-          b.extend_from_slice(&rec(5, 1, if *on { 1 } else { 0 }));
-          if c.evdev_framing {
-            b.extend_from_slice(&rec(0, 0, 0));
-          }
-          if *on && !held.is_empty() {
-            facts.on_with_keys_held += 1;
-          }
-          tablet_on = *on;
-        }
-        seen_tablet = true;
-        release_only_until_empty = true;
-        twin = Mapper::for_layout(&c.layout);
-        if !write_all(tab_feed, &b) {
+        if !feed_tablet(evs, tab_feed, &mut segs, &mut twin, &mut held, &mut tablet_on, facts) {
           verdict = Err(Violation::new("io", "write to the tablet socket failed".into()));
           break 'phases;
         }
+        seen_tablet = true;
         fed_text.push(format!("tablet {:?}", evs));
+      }
+      Phase::Joint { events, writes, tablet, tablet_first } => {
+        facts.joint_phases += 1;
+        let ok = match tab {
+          None => feed_keys(events, *writes, false, &mut segs, &mut twin, &mut held, &mut phys, tablet_on, seen_tablet, facts),
+          Some((_, tab_feed)) => {
+            if *tablet_first {
+              let a = feed_tablet(tablet, tab_feed, &mut segs, &mut twin, &mut held, &mut tablet_on, facts);
+              seen_tablet = true;
+              a && feed_keys(events, *writes, false, &mut segs, &mut twin, &mut held, &mut phys, tablet_on, seen_tablet, facts)
+            } else {
+              let a = feed_keys(events, *writes, false, &mut segs, &mut twin, &mut held, &mut phys, tablet_on, seen_tablet, facts);
+              let b = a && feed_tablet(tablet, tab_feed, &mut segs, &mut twin, &mut held, &mut tablet_on, facts);
+              seen_tablet = true;
+              b
+            }
+          }
+        };
+        if !ok {
+          verdict = Err(Violation::new("io", "write to an input socket failed".into()));
+          break 'phases;
+        }
+        let kt = events.iter().map(ev_text).collect::<Vec<_>>().join(" ");
+        fed_text.push(if *tablet_first { format!("same wake-up: tablet {:?} then {}", tablet, kt) } else { format!("same wake-up: {} then tablet {:?}", kt, tablet) });
       }
       Phase::Interrupt => {
         facts.interrupts += 1;
@@ -607,41 +689,60 @@ pub fn run_real_case(which: u32, c: &RealCase, facts: &mut RealFacts) -> Result<
     };
     judged = sink.len();
     facts.output_records += got.len() as u32;
-    let judge_here = match which { 10 => !seen_tablet, 12 => seen_tablet, _ => false };
-    if release_only_until_empty {
-      // C12: only releases, and afterwards nothing is held; an empty batch (lone SYN) is noise
-      let mut h = held.clone();
-      let mut bad: Option<String> = None;
-      for (t, cc, v) in &got {
-        if *t == 0 { continue; }
-        if *t != 1 || *v != 0 { bad = Some(format!("record ({},{},{}) is not a key release", t, cc, v)); break; }
-        h.retain(|k| *k as i32 as u16 != *cc);
+    // lone SYN records (empty batches) carry nothing: judge without them
+    let strip = |v: &[(u16, u16, i32)]| -> Vec<(u16, u16, i32)> {
+      let mut out: Vec<(u16, u16, i32)> = Vec::new();
+      for r in v {
+        if r.0 == 0 && r.1 == 0 && (out.is_empty() || out.last().map(|l| l.0 == 0 && l.1 == 0).unwrap_or(false)) { continue; }
+        out.push(*r);
       }
-      if bad.is_none() && !h.is_empty() {
-        bad = Some(format!("{:?} still held on the virtual keyboard", h.iter().map(|k| key_name(*k)).collect::<Vec<_>>()));
-      }
-      held.clear();
-      if let Some(b) = bad {
-        if judge_here {
-          verdict = Err(Violation::new("real-tablet-release", format!("after tablet phase {} the sink got [{}]: {}; fed so far: {}", pi, recs_text(&got), b, fed_text.join(" | "))));
-          break 'phases;
+      out
+    };
+    let gs = strip(&got);
+    let mut idx = 0usize;
+    let mut all_judged = true;
+    let mut last_on = tablet_on;
+    for seg in &segs {
+      match seg {
+        Seg::Exact { recs, judge, tablet_on: on } => {
+          if !*judge { all_judged = false; break; }
+          last_on = *on;
+          let want = strip(recs);
+          let have: &[(u16, u16, i32)] = if idx + want.len() <= gs.len() { &gs[idx..idx + want.len()] } else { &gs[idx.min(gs.len())..] };
+          if have != &want[..] {
+            let kind = if *on { "real-write-in-tablet-mode" } else if which == 12 { "real-not-fresh-after-tablet" } else { "real-output-differs" };
+            verdict = Err(Violation::new(kind, format!("phase {} ({}): the sink got [{}] where the mapper owes [{}] (the whole phase wrote [{}]); fed so far: {}", pi, if *on { "tablet mode on" } else { "tablet mode off" }, recs_text(have), recs_text(&want), recs_text(&gs), fed_text.join(" | "))));
+            break 'phases;
+          }
+          idx += want.len();
+        }
+        Seg::Release { held_before, judge } => {
+          if !*judge { all_judged = false; break; }
+          // C12: only releases until nothing is held (one batch or several)
+          let mut h = held_before.clone();
+          let mut bad: Option<String> = None;
+          while !h.is_empty() {
+            match gs.get(idx) {
+              None => { bad = Some(format!("{:?} still held on the virtual keyboard", h.iter().map(|k| key_name(*k)).collect::<Vec<_>>())); break; }
+              Some((0, 0, _)) => { idx += 1; }
+              Some((1, cc, 0)) if h.iter().any(|k| *k as i32 as u16 == *cc) => { h.retain(|k| *k as i32 as u16 != *cc); idx += 1; }
+              Some((t, cc, v)) => { bad = Some(format!("record ({},{},{}) is not the release of a held key while {:?} are still held", t, cc, v, h.iter().map(|k| key_name(*k)).collect::<Vec<_>>())); break; }
+            }
+          }
+          if bad.is_none() && !held_before.is_empty() {
+            if let Some((0, 0, _)) = gs.get(idx) { idx += 1; }
+          }
+          if let Some(b) = bad {
+            verdict = Err(Violation::new("real-tablet-release", format!("at the tablet event of phase {} the sink got [{}]: {}; fed so far: {}", pi, recs_text(&gs), b, fed_text.join(" | "))));
+            break 'phases;
+          }
         }
       }
-    } else if judge_here {
-      // lone SYN records (empty batches) carry nothing: compare without them
-      let strip = |v: &[(u16, u16, i32)]| -> Vec<(u16, u16, i32)> {
-        let mut out: Vec<(u16, u16, i32)> = Vec::new();
-        for r in v {
-          if r.0 == 0 && r.1 == 0 && (out.is_empty() || out.last().map(|l| l.0 == 0 && l.1 == 0).unwrap_or(false)) { continue; }
-          out.push(*r);
-        }
-        out
-      };
-      if strip(&got) != strip(&expected) {
-        let kind = if tablet_on { "real-write-in-tablet-mode" } else if which == 12 { "real-not-fresh-after-tablet" } else { "real-output-differs" };
-        verdict = Err(Violation::new(kind, format!("phase {} ({}): the sink got [{}], the mapper owes [{}]; fed so far: {}", pi, if tablet_on { "tablet mode on" } else { "tablet mode off" }, recs_text(&got), recs_text(&expected), fed_text.join(" | "))));
-        break 'phases;
-      }
+    }
+    if all_judged && !segs.is_empty() && idx < gs.len() {
+      let kind = if last_on { "real-write-in-tablet-mode" } else if which == 12 { "real-not-fresh-after-tablet" } else { "real-output-differs" };
+      verdict = Err(Violation::new(kind, format!("phase {}: the sink got [{}], of which [{}] is owed to nothing; fed so far: {}", pi, recs_text(&gs), recs_text(&gs[idx..]), fed_text.join(" | "))));
+      break 'phases;
     }
   }
 
@@ -670,6 +771,36 @@ pub fn run_real_case(which: u32, c: &RealCase, facts: &mut RealFacts) -> Result<
               Quiet::Quiet => {
                 if which == 20 {
                   verdict = Err(Violation::new("real-write-failure-did-not-stop-the-loop", format!("the sink's read end is closed, the loop read +{} (it owes [{}], the write fails with EPIPE) and went back to waiting instead of returning the error; fed so far: {}", key_name(k), owed.iter().map(ev_text).collect::<Vec<_>>().join(" "), fed_text.join(" | "))));
+                }
+              }
+              _ => { facts.inconclusive = true; }
+            }
+          }
+        }
+      }
+      Fault::SinkFull(free) if !tablet_on => {
+        facts.fault = "sink-full";
+        drain_sink(sink_r, &mut sink);
+        judged = sink.len();
+        let cap = unsafe { libc::fcntl(sink_w, libc::F_SETPIPE_SZ, 4096) };
+        let used: Vec<KeyCode> = c.layout.mappings.iter().flat_map(|m| m.from.iter().chain(m.to.iter()).cloned()).collect();
+        let k = [KeyCode::KP7, KeyCode::KP8, KeyCode::KP9, KeyCode::KPMINUS, KeyCode::SCROLLLOCK, KeyCode::F9, KeyCode::F10, KeyCode::F11].iter().cloned().find(|k| !used.contains(k) && !phys.contains(k) && !held.contains(k));
+        if let (4096, Some(k)) = (cap, k) {
+          let owed = twin.step(Event::Pressed(k)).events;
+          // one write into the empty one-page pipe: exactly `free` bytes of room remain
+          let filled = write_all(sink_w, &vec![0u8; 4096 - free.min(47)]);
+          if filled && owed.len() == 1 {
+            write_all(kb_feed, &key_rec(&Event::Pressed(k)));
+            match wait_quiet(&run) {
+              Quiet::Finished => {
+                let r = result.lock().unwrap().clone();
+                if which == 20 && !matches!(r, Some(Err(_))) {
+                  verdict = Err(Violation::new("real-write-failure-not-returned", format!("the write of [{}] failed with EAGAIN (sink full) and the loop returned {:?}", owed.iter().map(ev_text).collect::<Vec<_>>().join(" "), r)));
+                }
+              }
+              Quiet::Quiet => {
+                if which == 20 {
+                  verdict = Err(Violation::new("real-write-failure-did-not-stop-the-loop", format!("the sink has {} bytes of room, the loop read +{} (it owes [{}] and a SYN_REPORT, 48 bytes: the write fails with EAGAIN) and went back to waiting instead of returning the error; fed so far: {}", free.min(47), key_name(k), owed.iter().map(ev_text).collect::<Vec<_>>().join(" "), fed_text.join(" | "))));
                 }
               }
               _ => { facts.inconclusive = true; }
@@ -754,18 +885,22 @@ pub fn run_real_case(which: u32, c: &RealCase, facts: &mut RealFacts) -> Result<
   } else {
     facts.inconclusive = true;
   }
+  if facts.inconclusive {
+    INCONCLUSIVE.fetch_add(1, Ordering::SeqCst);
+  }
   verdict
 }
 
 fn record_real(c: &RealCase, f: &RealFacts, stats: &mut Stats) {
   if f.skipped {
-    stats.label("real-descriptors:skipped (/proc/self/task/<tid>/syscall not readable)");
+    stats.label("real-descriptors:skipped (/proc/self/task/<tid>/syscall not readable, or too many inconclusive cases)");
     return;
   }
   stats.label("real-descriptor-case");
   stats.label(&format!("real-ending:{}", if f.fault.is_empty() { "none" } else { f.fault }));
   if f.inconclusive { stats.label("real-inconclusive"); }
   if f.interrupts > 0 { stats.label("real-with-signal-interruption"); }
+  if f.joint_phases > 0 { stats.label("real-keyboard-and-tablet-in-one-wake-up (content not judged from there on)"); }
   if f.tablet_events > 0 { stats.label("real-with-tablet-events"); }
   if f.on_with_keys_held > 0 { stats.label("real-tablet-on-with-keys-held"); }
   if c.evdev_framing { stats.label("real-evdev-framing"); }
@@ -789,6 +924,10 @@ pub fn stage(which: u32, cfg: &RunCfg, findings: &Findings, rep: &mut Report) ->
   }
   let quick = cfg.tier == Tier::Quick;
   let per_shard: u32 = if quick { 250 } else { 4_000 };
+  // every failing case as first observed (also during shrinking): on a changed tree a verdict
+  // of this stage can depend on how the loop's thread was scheduled; if the shrunk case does
+  // not fail again, the smallest case that did fail is reported instead of "flaky"
+  let observed: Mutex<Vec<(String, Violation)>> = Mutex::new(Vec::new());
   let (st, fail) = run_prop_iters(
     cfg,
     &format!("{}-real-descriptors", name),
@@ -824,6 +963,11 @@ pub fn stage(which: u32, cfg: &RunCfg, findings: &Findings, rep: &mut Report) ->
           if std::env::var("VERIF_DEBUG").is_ok() {
             eprintln!("[real] {}: {} | {}", v.kind, v.detail, c.to_json());
           }
+          if let Ok(mut o) = observed.lock() {
+            if o.len() < 10_000 {
+              o.push((c.to_json().to_string(), v.clone()));
+            }
+          }
           Err(v)
         }
       }
@@ -831,6 +975,17 @@ pub fn stage(which: u32, cfg: &RunCfg, findings: &Findings, rep: &mut Report) ->
   );
   rep.stats.merge(st);
   if let Some(f) = fail {
+    if f.violation.kind == "flaky" {
+      let mut o = observed.lock().map(|o| o.clone()).unwrap_or_default();
+      o.sort_by(|a, b| (a.0.len(), &a.0).cmp(&(b.0.len(), &b.0)));
+      if let Some((case_text, mut v)) = o.into_iter().next() {
+        v.detail = format!("{} (seen once: the verdict depended on how the loop's thread was scheduled - the case did not fail again when it was re-run; the replay file holds the smallest case that failed)", v.detail);
+        let case: Value = serde_json::from_str(&case_text).unwrap_or(Value::Null);
+        let path = write_replay(&name, &v, &case);
+        rep.violations.push((v, path));
+        return true;
+      }
+    }
     if let Some(c) = f.case {
       let path = write_replay(&name, &f.violation, &c.to_json());
       rep.violations.push((f.violation, path));
